@@ -446,6 +446,9 @@ func (e *Exec) checkFrame(st *State, fr *Frame, env *Env) {
 				if _, pre := e.lazyObjs[parts[1]]; !pre {
 					continue
 				}
+				if strings.Contains(parts[1], "!c") || strings.Contains(parts[1], "~c") || strings.Contains(parts[1], "~L") {
+					continue // map returned by a callee during this call: not part of the pre-state
+				}
 				if c.Extra["assigns-maps"] != nil {
 					continue
 				}
